@@ -56,7 +56,10 @@ static HELPER: Mutex<Option<Helper>> = Mutex::new(None);
 fn other_process_hash(words: &[u32], direct: bool, tier: Tier) -> Option<u64> {
     let mut guard = HELPER.lock().ok()?;
     if guard.is_none() {
-        let exe = std::env::current_exe().ok()?;
+        let exe = match std::env::var_os("QV_EXE") {
+            Some(e) => std::path::PathBuf::from(e),
+            None => std::env::current_exe().ok()?,
+        };
         let mut child = Command::new(exe).arg("c08-helper").arg(tier.name()).stdin(Stdio::piped()).stdout(Stdio::piped()).spawn().ok()?;
         let stdin = child.stdin.take()?;
         let stdout = BufReader::new(child.stdout.take()?);
